@@ -181,6 +181,8 @@ def n5(body):
         for f in st["fields"]:
             e = strip_(f["e"])
             if e.get("k") == "Path" and e["path"] in env:
+                if any(n_["k"] == "Path" and n_["path"] == e["path"] for n_ in walk(env[e["path"]])):
+                    continue  # `let x = f(x);` shadows an outer x: its definition cannot be moved below the let
                 used.add(e["path"])
                 f["e"] = _subst(e, env)
                 f["shorthand"] = False
